@@ -56,6 +56,16 @@ def nth {α : Type} (l : List α) (i : Nat) (what : String) : Except String α :
   | some a => pure a
   | none => throw s!"{what} index {i} out of range"
 
+/-- `[tree index, element index]` → the element with the fragment that holds it -/
+def member (trees : List Frag) (t : Json) : Except String (Frag × El) := do
+  let p ← (fromJson? t : Except String (Array Nat))
+  match p.toList with
+  | [ti, ei] => do
+    let toF ← nth trees ti "tree"
+    let b ← nth toF.elems ei "element"
+    pure (toF, b)
+  | _ => throw "bad target"
+
 def query (trees : List Frag) (q : Json) : Except String Json := do
   let a ← (fromJson? q : Except String (Array Json))
   let l : Loader := ⟨trees⟩
@@ -71,15 +81,16 @@ def query (trees : List Frag) (q : Json) : Except String Json := do
     pure (jexc (fun es => Json.arr (es.map jEl).toArray) (followLinks l s.toList ign))
   | [Json.str "setlinks", fi, Json.arr ts] =>
     let fromF ← nth trees (← fromJson? fi) "tree"
-    let targets ← ts.toList.mapM (fun t => do
-      let p ← (fromJson? t : Except String (Array Nat))
-      match p.toList with
-      | [ti, ei] => do
-        let toF ← nth trees ti "tree"
-        let b ← nth toF.elems ei "element"
-        pure (toF, b)
-      | _ => throw "bad target")
+    let targets ← ts.toList.mapM (member trees)
     pure (jexc (fun ss => jstr (joinSpace ss)) (setLinks fromF targets))
+  | [Json.str "attrinsert", fi, Json.arr ts, idx, v] =>
+    let fromF ← nth trees (← fromJson? fi) "tree"
+    let members ← ts.toList.mapM (member trees)
+    pure (jexc (fun ss => jstr (joinSpace ss)) (attrInsert fromF members (← fromJson? idx) (← member trees v)))
+  | [Json.str "attrdelete", fi, Json.arr ts, idx] =>
+    let fromF ← nth trees (← fromJson? fi) "tree"
+    let members ← ts.toList.mapM (member trees)
+    pure (jexc (fun ss => jstr (joinSpace ss)) (attrDelete fromF members (← fromJson? idx)))
   | _ => throw "unknown query"
 
 def handle (op : String) (j : Json) : Except String Json := do
